@@ -1613,7 +1613,8 @@ func (t *tScreen) parseXtermMouse(buf *bytes.Buffer, evs *[]Event) (bool, bool) 
 			}
 			state++
 		case 3:
-			btn = int(b[i])
+			// like the coordinates, the button byte is offset by 32
+			btn = int(b[i]) - 32
 			state++
 		case 4:
 			x = int(b[i]) - 32 - 1
